@@ -359,3 +359,55 @@ func Harness_C15_leave_timeout_step() {
 	w.assertTimer()
 	verifReach("end")
 }
+
+// ---- the ending cannot be recorded: the store refuses the finalizing message, or the originator has lost its
+// permission to publish in the meantime. "Every call that was started ends exactly once ... after which a new
+// call can be started": the call is over nevertheless - no call is left "in progress", nothing keeps timing
+// it, the other party is told it is over, and the next invitation is not answered 'busy'.
+func Harness_C15_ending_survives_a_failed_write() {
+	w := verifCallSetup()
+	t := w.t
+	verifAssume(w.state != 0 && globals.iceServers != nil)
+	if verifNondetBool("originatorLostWrite") {
+		pud := t.perUser[w.a]
+		pud.modeGiven = types.ModeCP2P &^ types.ModeWrite
+		t.perUser[w.a] = pud
+	} else {
+		w.fx.store.failAt = 0
+	}
+	oldRows := len(w.fx.store.msgs)
+	switch verifChoose("ending", 3) {
+	case 0: // timeout
+		t.terminateCallInProgress(true)
+	case 1: // the originator's session goes away
+		t.unregisterSession(&ClientComMessage{sess: w.sess[0], init: false})
+	case 2: // the callee hangs up / declines
+		msg := &ClientComMessage{
+			Note:   &MsgClientNote{Topic: w.a.UserId(), What: "call", Event: "hang-up", SeqId: w.seq},
+			AsUser: w.b.UserId(), AuthLvl: int(auth.LevelAuth), Original: w.a.UserId(), RcptTo: t.name,
+			Timestamp: types.TimeNow(), sess: w.sess[2], init: true}
+		t.handleClientMsg(msg)
+	}
+	w.fx.store.failAt = -1
+	o := w.observe(oldRows)
+	verifAssert(len(o.rows) == 0, "fixture: the finalizing write failed")
+	verifAssert(t.currentCall == nil, "call-ended-although-the-ending-was-not-recorded")
+	verifAssert(!verifTimerActive(t.callEstablishmentTimer), "nothing-times-a-finished-call")
+	// a new call can be started (by the callee, who may publish)
+	pud := t.perUser[w.b]
+	verifAssume((pud.modeWant & pud.modeGiven).IsWriter())
+	rows := len(w.fx.store.msgs)
+	inv := &ClientComMessage{
+		Pub:    &MsgClientPub{Id: "p9", Topic: w.a.UserId(), Head: map[string]any{"webrtc": "started", "mime": "application/x-tinode-webrtc"}, Content: "c2"},
+		Id:     "p9", AsUser: w.b.UserId(), AuthLvl: int(auth.LevelAuth), Original: w.a.UserId(), RcptTo: t.name,
+		Timestamp: types.TimeNow(), sess: w.sess[2], init: true}
+	t.handleClientMsg(inv)
+	busy := false
+	for _, m := range verifDrainSend(w.sess[2]) {
+		if m != nil && m.Ctrl != nil && m.Ctrl.Id == "p9" && m.Ctrl.Code >= 400 {
+			busy = true
+		}
+	}
+	verifAssert(!busy && len(w.fx.store.msgs) == rows+1 && t.currentCall != nil, "a-new-call-can-be-started-afterwards")
+	verifReach("end")
+}
